@@ -230,6 +230,18 @@ PROPS = {
         floor={'quick': 300, 'thorough': 10000},
         timeout={'quick': 3000, 'thorough': 25000},
     ),
+    'C19': dict(
+        runs=[dict(src='c19_isolation.c', ldflags='-Wl,--wrap=time,--wrap=gettimeofday')],
+        level='exploration',
+        rule=('case = a group of 2..8 scripts (kinds: write, read, rdwr, a handle driven into errors incl. a failing sf_open elsewhere, path write, SD2 path '
+              'write+read) on formats drawn from the whole enumeration, 8..24 calls each, merged round-robin or by a seeded random schedule; plus ALL 924 merges of '
+              'two 6-call scripts for several pairs. Every script transcript (return values, digests of returned data, sf_error after each call, digest of the final '
+              'bytes) is compared call by call with the same script run alone in a fresh process forked from a zygote that never called the library. '
+              'distinct = hash(schedule, group size, PRNG state)'),
+        assumptions=COMMON_ASSUME + ['single-threaded interleavings only, as the property states',
+                                     'clock pinned with --wrap=time/gettimeofday; per-process private TMPDIR; path scripts use the same file name in different directories'],
+        floor={'quick': 200, 'thorough': 1000},
+    ),
 }
 
 NOT_APPLICABLE = {}
